@@ -256,6 +256,16 @@ def policy(repo, tier):
                          first=("7z member with a stream", "7z zero-length", "7z listed member", "7z directory")))
         for q in sorted({q for (_r, q, _c, _n, _v, _d) in mine if q in mods[rel].functions}):
             fns.append(dict(mods[rel].fn_info(q), obligations=1))
+    # P7: what the 7z reader writes for a member is the slice of the decompressed folder that the header declares for it -- the size the
+    #     extractor's per-member limit is checked against is the size that reaches the disk (and then the result)
+    oid = "C09/sevenzip.py/policy#bytes-written-for-a-member-are-its-declared-slice"
+    try:
+        judged = C09_flow.guard_flow(repo, SEVEN).judged_writes()
+        bad = [d for ok, d in judged if not ok]
+        obls.append(_obl(oid, bool(judged) and not bad, "; ".join(bad) or (f"{len(judged)} write site(s), each writes [lo : lo + member.uncompressed] or nothing" if judged
+                                                                          else "no write to a file found in the 7z reader (vacuity)"), SEVEN, first=("declared-sizes",)))
+    except Exception as e:  # noqa
+        obls.append(_obl(oid, False, f"write analysis does not cover this shape ({type(e).__name__}: {e})", SEVEN, first=("declared-sizes",)))
     # P5: the private temp dir is owned by a `with tempfile.TemporaryDirectory()` block that encloses every use of its name
     life = [d for (_r, _q, _c, _n, v, d) in sites if v == "tempdir-lifetime"]
     why = list(life)
@@ -305,12 +315,63 @@ def policy(repo, tier):
                   "the member dispatched here was not established to pass the skip rule on this path", first=("skip-rules",))
         if entries[kind] in arch.functions and kind == "7z":
             fns.append(dict(arch.fn_info(entries[kind]), obligations=1))
+    # the names the skip rule judged and the extractor receives are the member's own stored name and its basename (nothing rewritten between)
+    for kind in ("zip", "tar", "7z"):
+        typestate(f"C09/archive_extractor.py::{entries[kind]}/typestate#skip-rule-sees-the-stored-member-name", entries[kind], "dispatch-name",
+                  "the file name / base name dispatched here are not established to be the member's stored name and its os.path.basename", first=("skip-rules",))
     typestate("C09/archive_extractor.py::_extract_from_7z_optimized/typestate#oversize-members-are-never-dispatched", entries["7z"], "dispatch-size",
               "no size of the member dispatched here was checked against the limit on this path", first=("oversize",))
     return {"obligations": obls, "functions": fns}
 
 
-EXTRA = [policy]
+COLLISION_OID = "C09/replay::native-scope/bounded#7z-read-back-path-identifies-one-member.BOUNDED"
+COLLISION_FINDING = "C09-7z-read-back-by-path-collisions"
+
+
+def _native(req, repo, timeout=300):
+    import json
+    import subprocess
+    root = os.path.dirname(os.path.dirname(os.path.abspath(__file__)))
+    try:
+        p = subprocess.run(["/venv/bin/python", os.path.join(root, "replay", "run.py")], input=json.dumps(req), capture_output=True, text=True, timeout=timeout,
+                           cwd=root, env=dict(os.environ, VERIF_REPO=repo or loader.REPO))
+        lines = [l for l in p.stdout.splitlines() if l.startswith("{")]
+        return json.loads(lines[-1]) if lines else {"error": (p.stderr or p.stdout)[-500:]}
+    except Exception as e:  # noqa
+        return {"error": str(e)}
+
+
+def native_collisions(repo, tier):
+    """BOUNDED stand-in (DESIGN 2.8): 7z members are read back from the temp dir by path, and no contract says that a path belongs to one
+    entry only.  The native scope (entries sharing a name, `x` vs `./x`, `x` vs `__MACOSX/../x`, `d/x` vs `d//x`; solid and one folder per
+    file) runs on the real code: a selected member that comes out with another entry's bytes is a failing input; nothing found is
+    `bounded-ok`, never counted as proved."""
+    import json
+    res = _native({"property": "C09", "obligation": COLLISION_OID, "repo": repo}, repo)
+    if "error" in res or "crashed" in str(res.get("note", "")):
+        return {"obligations": [], "undecided": [{"obligation": COLLISION_OID, "why": "native scope could not run: " + str(res.get("error", res.get("note")))[:300]}]}
+    ok = not res.get("reproduced")
+    o = ground_obligation(COLLISION_OID, ok, "" if ok else f"{json.dumps((res.get('inputs') or {}).get('archive'))}: {str(res.get('observed'))[:300]}",
+                          "replay/C09_probe.py", kind="bounded", backend="native-replay")
+    o["bounded"] = True
+    o["bound"] = "4 collision layouts x (solid, one folder per file), per-member limit 1000 bytes"
+    return {"obligations": [o]}
+
+
+def known_findings(kf, violations, repo, tier):
+    """The recorded defect covers exactly its own bounded obligation, and only while that obligation still fails on the tree under check."""
+    out = []
+    vio_ids = {v["id"] for v in violations}
+    for f in kf:
+        if f.get("id") != COLLISION_FINDING:
+            continue
+        still = COLLISION_OID in vio_ids
+        out.append({"finding": f["id"], "still_fails": still, "line": f"{f['id']}: {f['what']}", "covers": [COLLISION_OID] if still else [],
+                    "witness_replay": next((v.get("reason") for v in violations if v["id"] == COLLISION_OID), "")})
+    return out
+
+
+EXTRA = [policy, native_collisions]
 TRUSTED = ["a normalised absolute path equal to abspath(base) or prefixed by abspath(base)+sep lies inside base (no symlinks are created by the reader)",
            "os.path.abspath returns a normalised absolute path"]
 ASSUMED_MODELS = ["os.path.abspath/join/splitdrive/isabs (uninterpreted)", "open/os.makedirs/os.path.exists (effects with confinement obligation)",
